@@ -34,7 +34,7 @@ LEVEL_TEXT = (
     "decided.")
 LEVEL_NOTE = "Trusted: CPython ast; Environment keeps put/set/get/newEnv as its whole interface (C09.flag.map checks that)."
 ASSUMPTIONS = []
-FLOORS = {"C03.capture": 6, "C03.defset": 12, "C03.pipe": 2, "C03.method": 5, "C03.byref": 5, "C03.spread": 2}
+FLOORS = {"C03.literal": 40, "C03.capture": 6, "C03.defset": 12, "C03.pipe": 2, "C03.method": 5, "C03.byref": 5, "C03.spread": 2}
 
 
 def _calls(node, attr):
@@ -84,8 +84,52 @@ def _frame_walk(m, sym, own, parent, must_raise, forbidden=None):
     return True, ""
 
 
+def literal_nodes(ctx, model):
+    """A literal node hands out the SAME value object at every evaluation.  That is right for values that cannot
+    change (strings, numbers, booleans, patterns); a list, set, map or object wrapped at parse time would be one
+    container shared by every evaluation - every call that omits a defaulted parameter, every iteration."""
+    parser = model.module(P, "parser")
+    MUTABLE = {"ValueList", "ValueSet", "ValueMap", "ValueObject"}
+    n = 0
+    for f in parser.all_funcs():
+        made = {}
+        for a in ast.walk(f.node):
+            if isinstance(a, ast.Assign) and len(a.targets) == 1 and isinstance(a.targets[0], ast.Name) \
+                    and isinstance(a.value, ast.Call):
+                made.setdefault(a.targets[0].id, []).append(a.value)
+        for c in ast.walk(f.node):
+            if not (isinstance(c, ast.Call) and isinstance(c.func, ast.Name) and c.func.id == "NodeLiteral" and c.args):
+                continue
+            n += 1
+            arg = c.args[0]
+            srcs = [arg] if not isinstance(arg, ast.Name) else made.get(arg.id, [])
+            heads = set()
+            for v in srcs:
+                x = v
+                # ValueList().addItem(..) and the like still yield the container
+                while isinstance(x, ast.Call) and isinstance(x.func, ast.Attribute):
+                    x = x.func.value
+                if isinstance(x, ast.Call) and isinstance(x.func, ast.Name):
+                    heads.add(x.func.id)
+            bad = heads & MUTABLE
+            ctx.check("C03.literal", f, c, not bad,
+                      f"a {'/'.join(sorted(bad))} is wrapped in a literal node at parse time: NodeLiteral.evaluate returns "
+                      f"the same object every time, so every evaluation (each call that omits the default, each "
+                      f"closure of the same fn) shares one container and sees the others' changes",
+                      expr=f"NodeLiteral({norm(arg)[:30]})")
+    if n < 10:
+        ctx.broken("parser", f"only {n} NodeLiteral constructions found in the parser")
+    lit = model.method(P, "NodeLiteral", "evaluate")
+    rets = [r for r in ast.walk(lit.node) if isinstance(r, ast.Return)]
+    if not (len(rets) == 1 and norm(rets[0].value) == "self.value"):
+        ctx.broken("NodeLiteral.evaluate", "no longer `return self.value`: the sharing argument of C03.literal has to be "
+                   "re-derived")
+    ctx.ob("C03.literal", "NodeLiteral.evaluate returns the stored value (so only immutable values may be stored)", True)
+
+
 def run(ctx):
     model = ctx.model
+    literal_nodes(ctx, model)
     # ---------------------------------------------------------------- capture
     nl = model.method(P, "NodeLambda", "evaluate")
     envp = nl.params[1]
